@@ -24,6 +24,7 @@
 #include "opnmidi_midiplay.hpp"
 #include "opnmidi_opn2.hpp"
 #include "opnmidi_private.hpp"
+#include "opnmidi_verif.h"
 #include "chips/opn_chip_base.h"
 #ifndef OPNMIDI_DISABLE_MIDI_SEQUENCER
 #include "midi_sequencer.hpp"
@@ -1263,6 +1264,7 @@ OPNMIDI_EXPORT int opn2_generateFormat(struct OPN2_MIDIPlayer *device, int sampl
     double  delay = double(sampleCount / 2) / double(setup.PCM_RATE);
 
     while(left > 0)
+    VERIF_LOOP(opnmidi_generate_period)
     {
         if(delay <= 0.0)
             delay = double(left / 2) / double(setup.PCM_RATE);
